@@ -71,14 +71,22 @@ def run(ctx: vlib.Ctx):
     ctx.theorems("props/C02_pack.vo", ["C02_pack_ref", "C02_field_packer", "C02_basic"])
     ctx.theorems("props/C02_collection_kernel.vo", ["C02_seq_decision_is_code", "C02_map_decision_is_code",
                                                     "C02_conversion_never_skipped", "C02_byref_iff_listed_identity"], kernels=["K15"])
-    ctx.coqchk(["VerifProps.C02_pack", "VerifProps.C02_collection_kernel"])
+    ctx.theorems("props/C02_ntdict.vo", ["C02_ntdict_pack_ref", "C02_ntdict_basic", "C02_ntdict_is_named_list"])
+    ctx.theorems("props/C02_typed_kernel.vo", ["C02_typed_code_is_model"], kernels=["K45a"])
+    ctx.trusted += ["tools/kernels/k45a_typeddict_emit.py (translator of the emission loop of pack_typed_dict; validated each run against the helpers generated for random "
+                    "TypedDict classes); TdEmit.v run_td_lines = semantics of the emitted statements"]
+    ctx.theorems("props/C02_ntdict_kernel.vo", ["C02_named_code_is_model", "C02_ntdict_code_is_model"], kernels=["K45b"])
+    ctx.trusted += ["tools/kernels/k45b_namedtuple_pack.py (translator of the display pack_named_tuple returns; validated each run against generated encoder source)"]
+    ctx.theorems("props/C02_typevar.vo", ["C02_optional_code_is_model", "C02_typevar_code_is_model", "C02_typevar_pack_ref"], kernels=["K45c"])
+    ctx.trusted += ["tools/kernels/k45c_optional_typevar.py (head of pack_special_typing_primitive + expr_or_maybe_none: exact-shape check, tests abstracted to booleans)"]
+    ctx.coqchk(["VerifProps.C02_pack", "VerifProps.C02_collection_kernel", "VerifProps.C02_ntdict", "VerifProps.C02_typed_kernel", "VerifProps.C02_ntdict_kernel", "VerifProps.C02_typevar"])
     ctx.trusted += ["tools/kernels/k15_collection_exprs.py (translator of _make_sequence_expression/_make_mapping_expression; "
                     "recognised tests and returned templates are listed explicitly, anything else fails closed)"]
     ctx.trusted += ["TyModel.v (cp/pk: hand-written model of pack.py registry order, copy-vs-comprehension and could_be_none decisions) "
                     "tied by vm_compute correspondence; stdlib renderings (isoformat, str, total_seconds, encodebytes, Enum.value) are oracle tables"]
     ctx.assumptions += ["format dialect part (orjson/msgpack/TOML native types, TOML null dropping) and unions (and enum-member / bytes literals) "
                         "are decided by the reference-interpreter oracle only (outside the Coq grammar); NamedTuple (as_list form), TypedDict "
-                        "(required keys, then the optional keys present) tuples with an unpacked segment (index/slice plan = kernel K7) and the abstract / special collection classes (Sequence, Mapping, Deque, OrderedDict, DefaultDict, MappingProxyType, Counter, ChainMap) and Literal types of int/str/bool/None constants are inside the Coq grammar; namedtuple_as_dict and generic NamedTuples/TypedDicts are oracle only"]
+                        "(required keys, then the optional keys present) tuples with an unpacked segment (index/slice plan = kernel K7) and the abstract / special collection classes (Sequence, Mapping, Deque, OrderedDict, DefaultDict, MappingProxyType, Counter, ChainMap) and Literal types of int/str/bool/None constants are inside the Coq grammar; the as_dict form of a NamedTuple class at the top of a codec is modelled in TyNtDict.v (C02_ntdict_pack_ref / _basic + correspondence); as_dict NamedTuples at nested positions under the global option and generic NamedTuples/TypedDicts are oracle only"]
 
     cases, bad, log = tycorr.run(ctx, "c02_ty", ctx.budget(40, 300), 3, depth=3, foreign=1)
     hits = tyoracle.report_corr(ctx, "TyModel.pk/ref_enc vs BasicEncoder.encode", cases, bad, log, want="enc")
@@ -128,6 +136,40 @@ def run(ctx: vlib.Ctx):
                           "observed": obs, "expected": "ok:" + gen.py_src(exp)}, {"kind": "encode-ref"})
         fam.dispose()
 
+    # namedtuple_as_dict (dialect option, or Config option of a holder dataclass): a NamedTuple is packed as a dict of ALL its items in field order
+    ref.NT_AS_DICT = True
+    try:
+        for fam, ns, t, ty, dia in tyoracle.as_dict_stream(ctx.rng, ctx.budget(40, 250)):
+            try:
+                enc = BasicEncoder(ty, **({"default_dialect": dia} if dia else {}))
+            except Exception as e:
+                ctx.fail(f"as_dict BasicEncoder({gen.py_ann(t)}) cannot be built: {type(e).__name__}: {e}",
+                         {"entry": "codec_build", "source": fam.source(), "type": gen.py_ann(t), "expected": "ok"}, {"kind": "encoder-build"})
+                continue
+            vg = gen.ValueGen(ctx.rng, fam)
+            for _ in range(3):
+                v = vg.value(t)
+                ctx.count((t.key(), "as_dict", repr(v)))
+                ctx.hist("as_dict_root", t.kind if dia else "config")
+                exp = ref.ref_encode(t, v, fam, ns)
+                what = None
+                try:
+                    got = enc.encode(v)
+                    obs = "ok:" + gen.py_src(got)
+                    if not gen.same_ordered(got, exp):
+                        what = f"as_dict encode differs from the reference: {gen.py_src(got)[:200]} vs {gen.py_src(exp)[:200]}"
+                    elif not gen.is_basic(got):
+                        what = "as_dict result is not made of str/int/float/bool/None/list/dict"
+                except Exception as e:
+                    what = f"as_dict encode raised {type(e).__name__}: {e}"
+                    obs = f"exc:{type(e).__name__}"
+                if what:
+                    ctx.fail(f"{gen.py_ann(t)}: {what}",
+                             {"entry": "codec_encode_as_dict" if dia else "codec_encode", "source": fam.source(), "type": gen.py_ann(t), "input_src": gen.py_src(v),
+                              "observed": obs, "expected": "ok:" + gen.py_src(exp)}, {"kind": "encode-ref"})
+    finally:
+        ref.NT_AS_DICT = False
+
     # format dialects: exactly the declared native types stay unconverted; TOML drops None fields
     for fam, ns, t, ty, sg in tyoracle.schema_stream(ctx.rng, ctx.budget(60, 600)):
         vg = gen.ValueGen(ctx.rng, fam)
@@ -156,6 +198,14 @@ def run(ctx: vlib.Ctx):
         fam.dispose()
 
     format_mixin_part(ctx)
+    # round-6 parts last: the random streams of the parts above stay what they were for every seed
+    tycorr.k45a_validate(ctx, "pack")
+    tycorr.k45b_validate(ctx)
+    ncases, nbad, nlog = tycorr.run_nd(ctx, "c02_nd", ctx.budget(40, 300), foreign=0)
+    tyoracle.report_corr(ctx, "TyNtDict.pk_nd/ref_enc_nd vs BasicEncoder.encode under an as_dict dialect", ncases, nbad, nlog, want="enc")
+    from harness.props import c01 as _c01
+    _c01.tv_part(ctx, "c02_tv", "enc", ctx.budget(40, 300))
+    toml_merge_part(ctx)
 
 
 FORMAT_MIXINS = {"orjson": ("DataClassORJSONMixin", "to_jsonb"), "msgpack": ("DataClassMessagePackMixin", "to_msgpack"),
@@ -204,7 +254,51 @@ def format_mixin_part(ctx):
             fam.dispose()
 
 
+TOML_MERGE_SRC = ("from dataclasses import dataclass\nfrom datetime import date\nfrom typing import List, Optional\nfrom mashumaro.dialect import Dialect\n"
+                  "@dataclass\nclass Item:\n    name: str\n    day: date\n    note: Optional[str] = None\n    tags: Optional[List[int]] = None\n"
+                  "class OnlyAStrategy(Dialect):\n    serialization_strategy = {complex: {'serialize': str, 'deserialize': complex}}\n"
+                  "class OnlyAnOption(Dialect):\n    serialize_by_alias = True\n"
+                  "class Empty(Dialect):\n    pass\n")
+
+
+def _toml_merge_obs(ns, dialect, vsrc):
+    import tomllib
+    from mashumaro.codecs.toml import TOMLEncoder
+    kw = {"default_dialect": ns[dialect]} if dialect else {}
+    try:
+        return "ok:" + gen.py_src(tomllib.loads(TOMLEncoder(ns["Item"], **kw).encode(eval(vsrc, dict(ns)))))
+    except Exception as e:
+        return f"exc:{type(e).__name__}"
+
+
+def toml_merge_part(ctx):
+    """directed, deterministic: the TOML codec with a caller dialect that says nothing about omit_none -- the merged dialect keeps the format
+    dialect's own options (null-valued fields are dropped, date stays native)"""
+    try:
+        import tomllib  # noqa: F401
+        import tomli_w  # noqa: F401
+    except Exception:
+        return
+    ns = gen.build_module(TOML_MERGE_SRC)
+    for vsrc, exp in (("Item('a', date(2020, 1, 2))", {"name": "a", "day": "date(2020, 1, 2)"}),
+                      ("Item('b', date(1999, 12, 31), 'n')", {"name": "b", "day": "date(1999, 12, 31)", "note": "n"}),
+                      ("Item('c', date(2021, 3, 4), None, [1, 2])", {"name": "c", "day": "date(2021, 3, 4)", "tags": [1, 2]})):
+        want = "ok:" + gen.py_src({k: (eval(x, dict(ns)) if isinstance(x, str) and x.startswith("date(") else x) for k, x in exp.items()})
+        for dialect in (None, "Empty", "OnlyAStrategy", "OnlyAnOption"):
+            ctx.count(("toml-merge", dialect, vsrc))
+            obs = _toml_merge_obs(ns, dialect, vsrc)
+            if obs != want:
+                ctx.fail(f"TOMLEncoder(Item, default_dialect={dialect}).encode({vsrc}) gives {obs[:200]}, documented {want[:200]}",
+                         {"entry": "toml_codec_merge", "source": TOML_MERGE_SRC, "dialect": dialect, "input_src": vsrc, "observed": obs, "expected": want},
+                         {"kind": "encode-native", "fmt": "toml"})
+
+
 def replay(rep: dict) -> int:
+    if rep.get("entry") == "toml_codec_merge":
+        ns = gen.build_module(rep["source"])
+        obs = _toml_merge_obs(ns, rep["dialect"], rep["input_src"])
+        print("observed:", obs, "\nexpected:", rep["expected"])
+        return 1 if obs != rep["expected"] else 0
     if rep.get("entry") == "format_mixin_encode":
         ns = gen.build_module(rep["source"])
         v = eval(rep["input_src"], dict(ns))
